@@ -42,6 +42,7 @@ package main
 
 import (
 	"bufio"
+	"bytes"
 	"encoding/hex"
 	"fmt"
 	"math/big"
@@ -64,6 +65,10 @@ func init() {
 	registerExec("api.sb32", execApiSb32)
 	registerExec("api.must", execApiMust)
 	registerExec("api.read", execApiRead)
+	registerExec("api.new", execApiNew)
+	registerExec("api.bv", execApiBv)
+	registerExec("api.setbk", execApiSetbk)
+	registerExec("api.root", execApiRoot)
 	registerGen("C02c", genC02c)
 	registerGen("C02cx", genC02cx)
 }
@@ -837,6 +842,20 @@ func genC02c(g *Gen, tier string, w *bufio.Writer) {
 			if t.Kind == KContainer {
 				fmt.Fprintf(w, "api.fv %s %s %s\n", apiRouteTok(g), t, v)
 			}
+			switch t.Kind {
+			case KUint, KBool:
+				if g.Chance(50) {
+					fmt.Fprintf(w, "api.setbk %s %s\n", t, v)
+				}
+			case KBytesN:
+			default:
+				if g.Chance(50) {
+					fmt.Fprintf(w, "api.new %s\n", t)
+				}
+				if g.Chance(50) {
+					fmt.Fprintf(w, "api.bv %s %s %s\n", apiRouteTok(g), t, v)
+				}
+			}
 			for _, sel := range apiChildSels(g, t, v) {
 				if sel == "-" || sel == "e" || g.Chance(70) {
 					fmt.Fprintf(w, "api.as %s %s %s %s\n", apiRouteTok(g), t, v, sel)
@@ -879,6 +898,35 @@ func genC02c(g *Gen, tier string, w *bufio.Writer) {
 		cv := &Val{Kind: VSeq, Seq: []*Val{g.RandVal(c15U(1), 1), v}}
 		fmt.Fprintf(w, "api.as new %s %s g1\n", ct, cv)
 		fmt.Fprintf(w, "api.fv new %s %s\n", ct, cv)
+	}
+	// typed New() / BackedView methods / SetBacking of basic views on every small shape
+	for _, e := range []*Ty{c15U(1), c15U(2), c15U(4), c15U(8), c15U(32), c15K(KBytesN, 32), c15K(KBytesN, 4), c15K(KBitlist, 9), c15K(KBitvector, 9), c15C(c15U(8), c15K(KBitlist, 3)), c15Un(true, c15U(2)), c15Un(false, c15U(4), c15K(KBitlist, 3))} {
+		if e.Kind != KUint && e.Kind != KBytesN {
+			fmt.Fprintf(w, "api.new %s\n", e)
+			fmt.Fprintf(w, "api.bv %s %s %s\n", apiRouteTok(g), e, g.RandVal(e, 8))
+		}
+		if e.Kind == KUint {
+			fmt.Fprintf(w, "api.setbk %s %s\n", e, g.RandVal(e, 8))
+		}
+		for _, n := range []uint64{1, 2, 3, 4, 5, 8, 9, 31, 32, 33, 64, 65, 1 << 20, 1 << 40} {
+			lt := c15L(n, e)
+			fmt.Fprintf(w, "api.new %s\n", lt)
+			fmt.Fprintf(w, "api.bv %s %s %s\n", apiRouteTok(g), lt, g.RandVal(lt, 6))
+			if n <= 65 {
+				vt := c15V(n, e)
+				fmt.Fprintf(w, "api.new %s\n", vt)
+				fmt.Fprintf(w, "api.bv %s %s %s\n", apiRouteTok(g), vt, g.RandVal(vt, 80))
+			}
+		}
+	}
+	fmt.Fprintf(w, "api.setbk %s %s\n", &Ty{Kind: KBool}, g.RandVal(&Ty{Kind: KBool}, 1))
+	for i := 0; i < 40; i++ {
+		b := g.Bytes(32)
+		if i%4 == 0 {
+			b = make([]byte, 32)
+			b[g.Intn(32)] = byte(g.Intn(3))
+		}
+		fmt.Fprintf(w, "api.root %s\n", hexs(b))
 	}
 	// (4) Uint256View.Bytes32 / SetBytes32 / MustUint256
 	two256 := new(big.Int).Lsh(big.NewInt(1), 256)
@@ -1066,4 +1114,144 @@ func genC02cx(g *Gen, tier string, w *bufio.Writer) {
 			fmt.Fprintf(w, "api.as new %s %s g0\n", ct, &Val{Kind: VSeq, Seq: []*Val{v}})
 		}
 	}
+}
+
+// ---- api.new / api.bv / api.setbk / api.root: the remaining small public methods ----
+
+// obsView: <root> <serialized bytes | ser-err>
+func apiObsView(vw view.View) string {
+	bs, err := serializeView(vw)
+	if err != nil {
+		return rootHex(vw.HashTreeRoot(tree.GetHashFn())) + " ser-err"
+	}
+	return rootHex(vw.HashTreeRoot(tree.GetHashFn())) + " " + hexs(bs)
+}
+
+func backedOf(vw view.View) *view.BackedView {
+	switch x := vw.(type) {
+	case *view.BasicVectorView:
+		return &x.BackedView
+	case *view.BasicListView:
+		return &x.BackedView
+	case *view.BitVectorView:
+		return &x.BackedView
+	case *view.BitListView:
+		return &x.BackedView
+	case *view.ComplexVectorView:
+		return &x.BackedView
+	case *view.ComplexListView:
+		return &x.BackedView
+	case *view.ContainerView:
+		return &x.BackedView
+	case *view.UnionView:
+		return &x.BackedView
+	}
+	return nil
+}
+
+// api.new T : the typed New() of a composite type definition -> ok <root> <bytes> <1 iff its type is T's definition>
+func execApiNew(st *State, args []string) string {
+	p := &parser{toks: args}
+	t := p.ty()
+	td := typeDef(t)
+	var vw view.View
+	switch x := td.(type) {
+	case *view.BasicVectorTypeDef:
+		vw = x.New()
+	case *view.BasicListTypeDef:
+		vw = x.New()
+	case *view.BitVectorTypeDef:
+		vw = x.New()
+	case *view.BitListTypeDef:
+		vw = x.New()
+	case *view.ComplexVectorTypeDef:
+		vw = x.New()
+	case *view.ComplexListTypeDef:
+		vw = x.New()
+	case *view.ContainerTypeDef:
+		vw = x.New()
+	case *view.UnionTypeDef:
+		vw = x.New()
+	default:
+		panic("parse: api.new: no typed New() for this type")
+	}
+	same := "0"
+	if vw.Type() == td {
+		same = "1"
+	}
+	return "ok " + apiObsView(vw) + " " + same
+}
+
+// api.bv <route> T V : the embedded BackedView's own methods (every composite view overrides or
+// inherits them): Copy(), Default(nil), HashTreeRoot, Backing; BasicListView.ViewRoot
+//   -> ok <copy: root bytes> <default: root bytes> <root> <1 iff Backing() is the view's backing node> [<ViewRoot>]
+func execApiBv(st *State, args []string) string {
+	route := args[0]
+	p := &parser{toks: args[1:]}
+	t := p.ty()
+	v := p.val()
+	vw, err := apiRoute(route, t, v)
+	if err != nil {
+		return "err"
+	}
+	bv := backedOf(vw)
+	if bv == nil {
+		panic("parse: api.bv: not a backed view")
+	}
+	c, err := bv.Copy()
+	if err != nil {
+		return "err"
+	}
+	d, err := bv.Default(nil)
+	if err != nil {
+		return "err"
+	}
+	same := "0"
+	if bv.Backing() == vw.Backing() {
+		same = "1"
+	}
+	out := "ok " + apiObsView(c) + " " + apiObsView(d) + " " + rootHex(bv.HashTreeRoot(tree.GetHashFn())) + " " + same
+	if bl, ok := vw.(*view.BasicListView); ok {
+		out += " " + rootHex(bl.ViewRoot(tree.GetHashFn()))
+	}
+	return out
+}
+
+// api.setbk T V : SetBacking on a basic value view (always refused) -> <err|ok> <value afterwards>
+func execApiSetbk(st *State, args []string) string {
+	p := &parser{toks: args}
+	t := p.ty()
+	v := p.val()
+	vw, err := construct(t, v)
+	if err != nil {
+		return "err"
+	}
+	other := view.Uint64View(0x0102030405060708).Backing()
+	res := errStr(vw.SetBacking(other))
+	ev, err := extract(t, vw)
+	if err != nil {
+		return res + " extract-err"
+	}
+	return res + " " + ev.String()
+}
+
+// api.root x<32 bytes> : tree.Root as a value: ByteLength, ValueByteLength, HashTreeRoot, Serialize, RootMeta.Name
+func execApiRoot(st *State, args []string) string {
+	p := &parser{toks: args}
+	b := unhex(p.next())
+	if len(b) != 32 {
+		panic("parse: api.root needs 32 bytes")
+	}
+	var r tree.Root
+	copy(r[:], b)
+	n, err := r.ValueByteLength()
+	if err != nil {
+		return "err"
+	}
+	var buf bytes.Buffer
+	if err := r.Serialize(codec.NewEncodingWriter(&buf)); err != nil {
+		return "err"
+	}
+	h := r.HashTreeRoot(tree.GetHashFn())
+	return fmt.Sprintf("ok %d %d %s %s %s", r.ByteLength(), n, rootHex(h), hexs(buf.Bytes()), hexs([]byte(view.RootMeta(0).Name())))
 }
